@@ -619,3 +619,159 @@ func encodesUnaltered(p *core.Program, x interface{ IsStream(types.Type) bool },
 		fileProbs(r, rule, core.FuncName(fi.Obj)+" encodes its packs unaltered", p.Pos(fi.Decl.Pos()), uniq(probs), "the packs handed in are encoded as they are")
 	}
 }
+
+// freshBytesResult: a function of the given packages that returns a byte slice taken from a
+// bytes.Buffer (X.Bytes()) hands out the buffer's own backing array. That is the caller's to keep only
+// if the buffer is the function's own: a local created here (new(bytes.Buffer), &bytes.Buffer{},
+// var, bytes.NewBuffer). A buffer that outlives the call — taken from a sync.Pool, a package-level
+// variable, a field of such an object, a parameter — is written again by the next call, and the bytes
+// handed out earlier change under their holder. A copy (append([]byte(nil), X.Bytes()...),
+// bytes.Clone) is always the caller's own.
+func freshBytesResult(p *core.Program, r *core.Report, rule string, relPkgs []string) {
+	in := map[string]bool{}
+	for _, k := range relPkgs {
+		in[k] = true
+	}
+	for _, fi := range p.Funcs {
+		if !in[core.RelPkg(fi.Pkg.PkgPath)] || fi.Decl.Body == nil {
+			continue
+		}
+		sig := fi.Obj.Type().(*types.Signature)
+		retBytes := false
+		for i := 0; i < sig.Results().Len(); i++ {
+			if isByteSlice(sig.Results().At(i).Type()) {
+				retBytes = true
+			}
+		}
+		if !retBytes {
+			continue
+		}
+		info := fi.Pkg.TypesInfo
+		// enclosing-call map to recognise copies
+		copied := map[*ast.CallExpr]bool{}
+		ast.Inspect(fi.Decl.Body, func(n ast.Node) bool {
+			call, ok := n.(*ast.CallExpr)
+			if !ok {
+				return true
+			}
+			isCopy := false
+			switch f := ast.Unparen(call.Fun).(type) {
+			case *ast.Ident:
+				isCopy = (f.Name == "append" && call.Ellipsis.IsValid()) || f.Name == "copy" || f.Name == "string"
+			case *ast.SelectorExpr:
+				isCopy = f.Sel.Name == "Clone"
+			}
+			if isCopy {
+				for _, a := range call.Args {
+					ast.Inspect(a, func(m ast.Node) bool {
+						if c, ok := m.(*ast.CallExpr); ok {
+							copied[c] = true
+						}
+						return true
+					})
+				}
+			}
+			return true
+		})
+		var classify func(e ast.Expr, depth int) string // "" = own, else why it outlives the call
+		classify = func(e ast.Expr, depth int) string {
+			e = ast.Unparen(e)
+			if depth > 6 {
+				return ""
+			}
+			switch v := e.(type) {
+			case *ast.SelectorExpr:
+				return classify(v.X, depth+1)
+			case *ast.StarExpr:
+				return classify(v.X, depth+1)
+			case *ast.TypeAssertExpr:
+				return classify(v.X, depth+1)
+			case *ast.UnaryExpr:
+				return classify(v.X, depth+1)
+			case *ast.CallExpr:
+				if sel, ok := ast.Unparen(v.Fun).(*ast.SelectorExpr); ok {
+					if fn, _ := info.Uses[sel.Sel].(*types.Func); fn != nil && fn.Pkg() != nil && fn.Pkg().Path() == "sync" && fn.Name() == "Get" {
+						return "it comes from a sync.Pool (" + types.ExprString(sel.X) + ") and goes back to it"
+					}
+				}
+				return ""
+			case *ast.Ident:
+				o, _ := info.ObjectOf(v).(*types.Var)
+				if o == nil {
+					return ""
+				}
+				if o.Pkg() != nil && o.Parent() == o.Pkg().Scope() {
+					return "it is the package-level variable " + o.Name()
+				}
+				// parameters and receivers outlive the call
+				if fi.Decl.Recv != nil {
+					for _, f := range fi.Decl.Recv.List {
+						for _, n := range f.Names {
+							if info.Defs[n] == types.Object(o) {
+								return "it belongs to the receiver"
+							}
+						}
+					}
+				}
+				var why string
+				ast.Inspect(fi.Decl.Body, func(n ast.Node) bool {
+					if as, ok := n.(*ast.AssignStmt); ok {
+						for i, l := range as.Lhs {
+							if id, ok := l.(*ast.Ident); ok && info.ObjectOf(id) == types.Object(o) {
+								var rhs ast.Expr
+								if len(as.Rhs) == len(as.Lhs) {
+									rhs = as.Rhs[i]
+								} else if len(as.Rhs) == 1 {
+									rhs = as.Rhs[0]
+								}
+								if rhs != nil {
+									if w := classify(rhs, depth+1); w != "" {
+										why = w
+									}
+								}
+							}
+						}
+					}
+					return true
+				})
+				return why
+			}
+			return ""
+		}
+		n := 0
+		bad := ""
+		ast.Inspect(fi.Decl.Body, func(m ast.Node) bool {
+			call, ok := m.(*ast.CallExpr)
+			if !ok {
+				return true
+			}
+			sel, ok := ast.Unparen(call.Fun).(*ast.SelectorExpr)
+			if !ok || sel.Sel.Name != "Bytes" {
+				return true
+			}
+			if nt := namedOf(info.TypeOf(sel.X)); nt == nil || nt.Obj().Pkg() == nil || nt.Obj().Pkg().Path() != "bytes" || nt.Obj().Name() != "Buffer" {
+				return true
+			}
+			n++
+			if copied[call] {
+				return true
+			}
+			if why := classify(sel.X, 0); why != "" {
+				bad = "hands out " + types.ExprString(call) + " (at " + p.Pos(call.Pos()) + "), the backing array of a buffer that outlives the call: " + why + "; the next call writes over the bytes an earlier caller still holds"
+			}
+			return true
+		})
+		if n > 0 {
+			r.Check(bad == "", rule, core.FuncName(fi.Obj)+" result storage", p.Pos(fi.Decl.Pos()), "the bytes handed out belong to a buffer created in this call (or are a copy)", bad)
+		}
+	}
+}
+
+func isByteSlice(t types.Type) bool {
+	sl, ok := t.Underlying().(*types.Slice)
+	if !ok {
+		return false
+	}
+	b, ok := sl.Elem().Underlying().(*types.Basic)
+	return ok && b.Kind() == types.Byte
+}
